@@ -1931,6 +1931,14 @@ std::string Analyser::AnalyserImpl::expression(const AnalyserEquationAstPtr &ast
     return res;
 }
 
+/**
+ * @brief Convert a double to an int, giving zero for values an int cannot hold (NaN, infinities, huge values).
+ */
+static int toIntOrZero(double value)
+{
+    return (std::isfinite(value) && (std::fabs(value) < 1.0e9)) ? int(value) : 0;
+}
+
 std::string Analyser::AnalyserImpl::expressionUnits(const UnitsMaps &unitsMaps,
                                                     const UnitsMultipliers &unitsMultipliers)
 {
@@ -1943,7 +1951,7 @@ std::string Analyser::AnalyserImpl::expressionUnits(const UnitsMaps &unitsMaps,
         std::string unit;
 
         if (!unitsMultipliers.empty()) {
-            auto intExponent = int(unitsMultipliers[i]);
+            auto intExponent = toIntOrZero(unitsMultipliers[i]);
             auto exponent = areNearlyEqual(unitsMultipliers[i], intExponent) ?
                                 convertToString(intExponent) :
                                 convertToString(unitsMultipliers[i], false);
@@ -1956,7 +1964,7 @@ std::string Analyser::AnalyserImpl::expressionUnits(const UnitsMaps &unitsMaps,
         for (const auto &unitsItem : unitsMap) {
             if ((unitsItem.first != "dimensionless")
                 && !areNearlyEqual(unitsItem.second, 0.0)) {
-                auto intExponent = int(unitsItem.second);
+                auto intExponent = toIntOrZero(unitsItem.second);
                 auto exponent = areNearlyEqual(unitsItem.second, intExponent) ?
                                     convertToString(intExponent) :
                                     convertToString(unitsItem.second, false);
